@@ -48,7 +48,7 @@ pub fn leaf_cv(code: u64, dom: u64, depth: u32) -> CV {
     let mut r = SimRng::new(code ^ 0x1eaf);
     let dom = if dom == 0 { DOM_ALL } else { dom };
     // pick an enabled kind
-    let kinds: Vec<u64> = (0..14).filter(|k| dom & (1 << k) != 0).collect();
+    let kinds: Vec<u64> = (0..15).filter(|k| dom & (1 << k) != 0).collect();
     let kind = if kinds.is_empty() { 0 } else { kinds[r.below(kinds.len() as u64) as usize] };
     match kind {
         0 => CV::U(r.below(1000)),
@@ -106,10 +106,19 @@ pub fn leaf_cv(code: u64, dom: u64, depth: u32) -> CV {
             let reps = r.range(10, 60) as usize;
             CV::T(std::iter::repeat(w).take(reps).collect::<Vec<_>>().join(" "))
         }
-        _ => {
+        13 => {
             // long incompressible bytes
             let n = r.range(64, 300);
             CV::B(r.bytes(n as usize))
+        }
+        _ => {
+            // an embedded envelope as a leaf value (#6.200 inside the leaf)
+            let inner = if depth >= 2 { CV::U(r.below(9)) } else { leaf_cv(r.next() | 8, dom & 0x3f, depth + 1) };
+            if r.chance(1, 2) {
+                CV::tag(200, CV::tag(201, inner))
+            } else {
+                CV::tag(200, CV::A(vec![CV::tag(201, inner), CV::M(vec![(CV::tag(201, CV::text("k")), CV::tag(201, CV::U(1)))])]))
+            }
         }
     }
 }
